@@ -25,7 +25,8 @@ const P: &str = "C03";
 pub struct Case {
     pub scn: Scn,
     /// 0 = mutation program, 1 = prover run on (q, state_q), 2 = proof replayed from another point,
-    /// 3 = proof of another committed polynomial, 4 = batch proof list reshaped
+    /// 3 = proof of another committed polynomial, 4 = batch proof list reshaped,
+    /// 5 = scheme-specific forgery built with the library's prover (falls back to 0 where there is none)
     pub mode: u8,
     pub ops: Vec<OpRaw>,
     pub sel: u64,
@@ -34,7 +35,7 @@ pub struct Case {
 pub fn case() -> impl Strategy<Value = Case> {
     (
         scn(4),
-        prop_oneof![6 => Just(0u8), 2 => Just(1u8), 1 => Just(2u8), 1 => Just(3u8), 2 => Just(4u8)],
+        prop_oneof![6 => Just(0u8), 2 => Just(1u8), 1 => Just(2u8), 1 => Just(3u8), 2 => Just(4u8), 2 => Just(5u8)],
         proptest::collection::vec(op_raw(), 1..=3),
         any::<u64>(),
     )
@@ -56,20 +57,40 @@ pub fn check_trait<S: Attack>(c: &Case, ctx: &mut CaseCtx) -> Result<(), Failure
     let sel = c.sel;
     let gi = (sel % sess.groups.len() as u64) as usize;
     let g = &sess.groups[gi];
-    let order = sess.group_order(g);
+    // Entry point the adversarial proof is presented to: the single-point verifier, or (one case in
+    // three) the batch verifier, as a one-label query set with a one-element proof list. The batch
+    // verifiers group a label's polynomials in label order, so the proof is made in that order.
+    let via_batch = (sel >> 4) % 3 == 0 && c.mode != 4;
+    let order = if via_batch {
+        let mut o = g.polys.clone();
+        o.sort_by_key(|i| sess.polys[*i].label().clone());
+        o
+    } else {
+        sess.group_order(g)
+    };
+    let entry = if via_batch { "batch_check" } else { "check" };
+    ctx.label(if via_batch { "entry:batch_check(one label)" } else { "entry:check" });
+    let present = |vals: Vec<S::F>, proof: &Proof<S>| -> Out<bool> {
+        if via_batch {
+            sess.batch_check_group(g, &order, &vals, proof, &mut sess.sponge(), sel)
+        } else {
+            sess.check_idx(&order, &g.point, vals, proof, &mut sess.sponge(), sel)
+        }
+    };
     let values: Vec<S::F> = order.iter().map(|i| sess.true_value(*i, &g.point)).collect();
     let Out::Ok(proof) = sess.open_idx(&order, &g.point, &mut sess.sponge(), sess.seeds[1]) else {
         ctx.label("open_failed(C01)");
         return Ok(());
     };
-    if !accepted(&sess.check_idx(&order, &g.point, values.clone(), &proof, &mut sess.sponge(), sel)) {
+    if !accepted(&present(values.clone(), &proof)) {
         ctx.label("honest_not_accepted(C01)");
         return Ok(());
     }
     let pos = ((sel >> 8) % order.len() as u64) as usize;
-    let mut desc = json!({"scheme": S::NAME, "key": sess.keys.info.desc, "group_size": order.len()});
+    let mut desc = json!({"scheme": S::NAME, "key": sess.keys.info.desc, "group_size": order.len(), "entry": entry});
+    let mode = if c.mode == 5 && !S::HAS_FORGE { 0 } else { c.mode };
 
-    match c.mode {
+    match mode {
         0 => {
             ctx.label("mode:mutation_program");
             let m = S::mutate(&sess, &order, &g.point, &values, &proof, &c.ops);
@@ -91,17 +112,17 @@ pub fn check_trait<S: Attack>(c: &Case, ctx: &mut CaseCtx) -> Result<(), Failure
                 ctx.label("toy_soundness_not_asserted");
                 return Ok(());
             }
-            let r = sess.check_idx(&order, &g.point, claimed, &m.proof, &mut sess.sponge(), sel);
+            let r = present(claimed, &m.proof);
             // non-trivial: the mutated proof reaches the algebraic checks (clean `false`), or it would
             // still be accepted for the true values
             let reaches = matches!(r, Out::Ok(false));
             let still_valid = !reaches
-                && accepted(&sess.check_idx(&order, &g.point, values.clone(), &m.proof, &mut sess.sponge(), sel));
+                && accepted(&present(values.clone(), &m.proof));
             ctx.label_if(reaches, "rejected_by_algebraic_check");
             ctx.label_if(still_valid, "mutation_keeps_true_claim_valid");
             ctx.label_if(!reaches && !still_valid, "rejected_by_shape_check");
             ctx.nontrivial_if(reaches || still_valid);
-            expect_reject(ctx, P, S::NAME, "check", "mutated_proof", &r, || m.desc.join("; "))
+            expect_reject(ctx, P, S::NAME, entry, "mutated_proof", &r, || m.desc.join("; "))
         }
         1 => {
             // the library's prover run on different polynomials and their own states, presented
@@ -135,8 +156,8 @@ pub fn check_trait<S: Attack>(c: &Case, ctx: &mut CaseCtx) -> Result<(), Failure
             let claimed: Vec<S::F> = lqs.iter().map(|q| q.polynomial().evaluate(&g.point)).collect();
             ctx.nontrivial = true;
             ctx.derived = Some(desc);
-            let r = sess.check_idx(&order, &g.point, claimed, &fp, &mut sess.sponge(), sel);
-            expect_reject(ctx, P, S::NAME, "check", "foreign_prover", &r, || {
+            let r = present(claimed, &fp);
+            expect_reject(ctx, P, S::NAME, entry, "foreign_prover", &r, || {
                 "proof computed from (q, state_q) accepted against commitment(p) for q(z)".into()
             })
         }
@@ -154,8 +175,8 @@ pub fn check_trait<S: Attack>(c: &Case, ctx: &mut CaseCtx) -> Result<(), Failure
             ctx.nontrivial = true;
             ctx.derived = Some(desc);
             // proof and values are honest for z2 but presented at z (where at least one value is false)
-            let r = sess.check_idx(&order, &g.point, claimed, &p2, &mut sess.sponge(), sel);
-            expect_reject(ctx, P, S::NAME, "check", "replayed_point", &r, || {
+            let r = present(claimed, &p2);
+            expect_reject(ctx, P, S::NAME, entry, "replayed_point", &r, || {
                 "proof made at another point accepted".into()
             })
         }
@@ -182,6 +203,22 @@ pub fn check_trait<S: Attack>(c: &Case, ctx: &mut CaseCtx) -> Result<(), Failure
             expect_reject(ctx, P, S::NAME, "check", "proof_of_other_polynomial", &r, || {
                 "proof for p_j accepted for commitment(p_i) and value p_j(z)".into()
             })
+        }
+        5 => {
+            ctx.label("mode:prover_built_forgery");
+            let Some(f) = S::forge(&sess, &order, &g.point, sel) else {
+                ctx.label("forgery_refused_by_prover");
+                return Ok(());
+            };
+            if f.claimed == values {
+                ctx.label("forgery_claims_true_values");
+                return Ok(());
+            }
+            ctx.nontrivial = true;
+            desc["forgery"] = json!(f.desc);
+            ctx.derived = Some(desc);
+            let r = present(f.claimed.clone(), &f.proof);
+            expect_reject(ctx, P, S::NAME, entry, "prover_built_forgery", &r, || f.desc.clone())
         }
         _ => {
             ctx.label("mode:batch_list_shape");
